@@ -20,6 +20,8 @@ import (
 	"time"
 
 	"github.com/gorilla/mux"
+	"github.com/inbucket/inbucket/v3/pkg/config"
+	"github.com/inbucket/inbucket/v3/pkg/extension"
 	"github.com/inbucket/inbucket/v3/pkg/extension/event"
 	"github.com/inbucket/inbucket/v3/pkg/server"
 	"github.com/inbucket/inbucket/v3/pkg/server/web"
@@ -424,13 +426,82 @@ func waitWebDown() {
 	}
 }
 
-func TestProp(t *testing.T)    { prop.Check(t) }
-func TestRegress(t *testing.T) { prop.Regress(t) }
+// ---- scanstop: a retention scan in progress ends when shutdown is requested ----
+
+// SCase: a scan over NBox mailboxes pausing SleepMs between them (config RetentionSleep) is
+// cancelled CancelMs after it started.
+type SCase struct {
+	Backend  string `json:"backend"`
+	NBox     int    `json:"nbox"`
+	SleepMs  int    `json:"sleep_ms"`
+	CancelMs int    `json:"cancel_ms"`
+}
+
+var propScanStop = hx.Prop[SCase]{
+	ID: pid, Name: "scanstop",
+	Rule: "a retention scan (RetentionScanner.DoScan, what Start runs once a minute) over 1-6 mailboxes with RetentionSleep 0 / 50 ms / 2 s / 45 s " +
+		"between mailboxes is cancelled 0-300 ms after it began, i.e. before, inside or between its pauses: it must return within 2 s of the " +
+		"cancellation (it must never take a whole pause to notice), having deleted nothing but expired mail; non-trivial = the remaining pauses " +
+		"would have lasted longer than the bound; distinct = distinct case JSON",
+	Quick: 40, Thorough: 300,
+	Gen: func(t *rapid.T) SCase {
+		return SCase{Backend: rapid.SampledFrom([]string{"memory", "file"}).Draw(t, "backend"), NBox: rapid.IntRange(1, 6).Draw(t, "nbox"),
+			SleepMs: rapid.SampledFrom([]int{0, 50, 2000, 45000, 45000}).Draw(t, "sleep"), CancelMs: rapid.SampledFrom([]int{0, 1, 5, 50, 300}).Draw(t, "cancel")}
+	},
+	Run: func(c SCase) *hx.Outcome {
+		o := &hx.Outcome{}
+		var st storage.Store
+		host := extension.NewHost()
+		if c.Backend == "file" {
+			dir := hx.TempDir()
+			defer os.RemoveAll(dir)
+			st = hx.NewFile(host, dir, 0)
+		} else {
+			st = hx.NewMem(host, 0, 0)
+		}
+		var young []string
+		for b := 0; b < c.NBox; b++ {
+			box := fmt.Sprintf("box%d", b)
+			if _, err := st.AddMessage(hx.NewDelivery(box, nil, nil, time.Now().Add(-48*time.Hour), "old", []byte("old"))); err != nil {
+				o.Failf(pid+":harness", "AddMessage: %v", err)
+				return o
+			}
+			id, _ := st.AddMessage(hx.NewDelivery(box, nil, nil, time.Now(), "young", []byte("young")))
+			young = append(young, box+"/"+id)
+		}
+		rs := storage.NewRetentionScanner(config.Storage{RetentionPeriod: time.Hour, RetentionSleep: time.Duration(c.SleepMs) * time.Millisecond}, st)
+		ctx, cancel := context.WithCancel(context.Background())
+		done := make(chan error, 1)
+		go func() { done <- rs.DoScan(ctx) }()
+		time.Sleep(time.Duration(c.CancelMs) * time.Millisecond)
+		cancel()
+		t0 := time.Now()
+		select {
+		case <-done:
+		case <-time.After(2 * time.Second):
+			o.Failf(pid+":scan-blocks-shutdown", "[%s, %d mailboxes, pause %d ms] the retention scan is still running 2 s after shutdown was requested (%d ms into the scan)", c.Backend, c.NBox, c.SleepMs, c.CancelMs)
+			return o
+		}
+		_ = t0
+		for _, y := range young {
+			f := strings.SplitN(y, "/", 2)
+			if m, err := st.GetMessage(f[0], f[1]); err != nil || m == nil {
+				o.Failf(pid+":young-deleted", "the interrupted scan deleted the unexpired message %s (%v)", y, err)
+			}
+		}
+		o.NonTrivial = c.SleepMs*(c.NBox) > 2500
+		o.Class(fmt.Sprintf("pause %d ms", c.SleepMs))
+		return o
+	},
+}
+
+func TestProp(t *testing.T)    { prop.Check(t); propScanStop.Check(t) }
+func TestRegress(t *testing.T) { prop.Regress(t); propScanStop.Regress(t) }
 func TestReplay(t *testing.T) {
 	if *hx.ReplayPath == "" {
 		t.Skip("no -replay")
 	}
-	if !prop.Replay(t, *hx.ReplayPath) {
+	if !prop.Replay(t, *hx.ReplayPath) && !propScanStop.Replay(t, *hx.ReplayPath) {
 		t.Fatalf("no prop matches %s", *hx.ReplayPath)
 	}
 }
